@@ -303,7 +303,7 @@ def resolve {Wire : Type} [DecidableEq Wire] (C : Codec Wire) (cfg : Cfg) (W : W
         | (reg', some e, cl) => ({ W with reg := reg', closedLog := W.closedLog ++ cl }, .resumed e)
 
 inductive Action where
-  | open (label : Nat) (ttl : Option Nat)     -- `ctx.open_session(state, ttl)`
+  | open (label : Nat) (ttl : Option Int)     -- `ctx.open_session(state, ttl)` (whole seconds; may be 0 or negative)
   | close                                     -- `ctx.close_session()`
   | use                                       -- read `ctx.session`
   | noop
@@ -336,6 +336,19 @@ def sealOk (cfg : Cfg) (created expires : Nat) : Bool :=
   decide (cfg.serverId.length ≤ Sticky.maxServerIdLen) && decide (created < 256 ^ Sticky.prefixWidths.headD 0)
     && decide (cfg.serverId.length < 256 ^ (Sticky.prefixWidths.drop 1).headD 0) && decide (expires < 256 ^ Sticky.suffixWidths.headD 0)
 
+/-- the TTL `_SessionRegistry.open` applies: `default if ttl is None else ttl` (or, in the other extracted shape, `ttl or default`) -/
+def effTtl (ttl : Option Int) (d : Nat) : Int :=
+  match ttl with
+  | none => d
+  | some t => if Sticky.ttlDefaultOnFalsy && t == 0 then d else t
+
+/-- `expires_at = time.time() + effective_ttl` (a negative instant cannot be packed: see `openSealOk`) -/
+def expiresOf (now : Nat) (ttl : Option Int) (d : Nat) : Nat := ((now : Int) + effTtl ttl d).toNat
+
+/-- sealing the token of this `open_session` succeeds -/
+def openSealOk (cfg : Cfg) (now : Nat) (ttl : Option Int) : Bool :=
+  decide (0 ≤ (now : Int) + effTtl ttl cfg.defaultTtl) && sealOk cfg now (expiresOf now ttl cfg.defaultTtl)
+
 def sidOfCtr (n : Nat) : Bytes := leBytes Sticky.sessionIdLen n
 
 /-- one API call of the method body, parametric in the one shape that differs between the pinned and the repaired tree:
@@ -348,10 +361,10 @@ def stepActionP (openResetsClosed : Bool) (cfg : Cfg) (wk : Nat) (ident : Identi
     else if Sticky.drainCheckFirst && W.reg.draining then (W, rs, .failed .draining)
     else
       let sid := sidOfCtr W.env.sidCtr
-      let expires := W.env.now + ttl.getD cfg.defaultTtl
+      let expires := expiresOf W.env.now ttl cfg.defaultTtl
       let reg' := W.reg.insert ⟨sid, expires, pkey ident, label, client⟩
       let env' := { W.env with sidCtr := W.env.sidCtr + 1 }
-      if !sealOk cfg W.env.now expires then
+      if !openSealOk cfg W.env.now ttl then
         -- `_seal_session_token` raises after the registry insertion
         ({ W with reg := reg', env := env' }, rs, .failed .sealFailed)
       else
@@ -363,12 +376,14 @@ def stepActionP (openResetsClosed : Bool) (cfg : Cfg) (wk : Nat) (ident : Identi
          .opened sid)
   | .close =>
     match rs.sc with
-    | none => (W, { rs with closed := Sticky.sinkCloseSetsClosed || rs.closed }, .closed false)   -- the callback reports a miss
+    | none =>   -- the callback reports a miss
+      (W, { rs with closed := if Sticky.sinkCloseAssignsHit then false else Sticky.sinkCloseSetsClosed || rs.closed }, .closed false)
     | some (sid, _) =>
       let (reg', hit, cl) := W.reg.close sid
       ({ W with reg := reg', closedLog := W.closedLog ++ cl },
        { rs with sc := none, lockHeld := if Sticky.closeSessionReleasesLock then none else rs.lockHeld,
-                 closed := (Sticky.sinkCloseSetsClosed || (Sticky.sinkCloseOnHitOnly && hit)) || rs.closed,
+                 closed := if Sticky.sinkCloseAssignsHit then hit
+                           else (Sticky.sinkCloseSetsClosed || (Sticky.sinkCloseOnHitOnly && hit)) || rs.closed,
                  mint := if Sticky.sinkCloseClearsMint then none else rs.mint },
        .closed hit)
   | .use => (W, rs, .used (rs.sc.map (·.2)))
